@@ -25,7 +25,7 @@ import (
 func TestVerifC15(t *testing.T) { verifMainC15() }
 
 func onlyMatches(only, name string) bool {
-	return only == "" || only == name || (only == "adapters" && strings.HasPrefix(name, "adapters-")) || (only == "queue" && !strings.HasPrefix(name, "adapters-"))
+	return only == "" || only == name || (only == "adapters" && strings.HasPrefix(name, "adapters-")) || (only == "queue" && !strings.HasPrefix(name, "adapters-") && name != "config-binding")
 }
 
 func verifMainC15() {
@@ -41,6 +41,9 @@ func verifMainC15() {
 		vx.ServeWorker(func(arg string) vx.RunFunc {
 			if sc, ok := wireScenarioByName(arg); ok {
 				return wireRun(sc)
+			}
+			if arg == "config-binding" {
+				return bindingRun
 			}
 			return runFor(prop, byName[arg])
 		})
@@ -88,6 +91,16 @@ func verifMainC15() {
 		os.Exit(c.Finish([]vx.Part{{Scenario: rf.Scenario, Stats: st, Exec: exec}}, nil))
 	}
 	bounds := []map[string]interface{}{}
+
+	// part 3 (cheapest): configuration keys -> what the manifest hands to the queue
+	if onlyMatches(only, "config-binding") {
+		exec := func(p []vx.Point) vx.Result { return pool.ExecArg(p, "config-binding") }
+		e := &vx.Explorer{Name: "config-binding", BoundEnv: 0, BoundSch: 0, BoundSum: -1, Exec: exec, Workers: nw, Deadline: time.Now().Add(60 * time.Second)}
+		st := e.Explore()
+		fmt.Printf("  scenario %-28s executions=%d outcomes=%d exhaustive=%v\n", "config-binding", st.Executions, len(st.Outcomes), st.Exhaustive)
+		parts = append(parts, vx.Part{Scenario: "config-binding", Stats: st, Exec: exec})
+		bounds = append(bounds, map[string]interface{}{"scenario": "config-binding", "lfs.transfer.maxretries": bindRetries, "lfs.transfer.maxretrydelay": bindDelays, "lfs.concurrenttransfers": bindConc})
+	}
 
 	// part 2 first (cheap first): the real adapters at the wire
 	tAdapters := time.Now()
